@@ -124,6 +124,20 @@ func (r errorReporter) prefixed(prefix string, n ast.Node, msg string, args ...i
 	panic(gooseError{err: err})
 }
 
+// internalError describes a panic that is not a goose error (a bug in goose) as
+// a ConversionError located at the declaration being translated.
+func (r errorReporter) internalError(n ast.Node, cause interface{}) *ConversionError {
+	return &ConversionError{
+		Category:    "impossible(go)",
+		Message:     fmt.Sprintf("internal error: %v", cause),
+		GoCode:      "",
+		GooseCaller: "<recovered panic>",
+		GoSrcFile:   r.fset.Position(n.Pos()).String(),
+		Pos:         n.Pos(),
+		End:         n.End(),
+	}
+}
+
 // nope reports a situation that I thought was impossible from reading the
 // documentation.
 func (r errorReporter) nope(n ast.Node, msg string, args ...interface{}) {
